@@ -114,7 +114,7 @@ def run(ctx, replay=None):
     # --- direct oracles beyond the model
     all_traces.append({'id': 'sizes', 'cfg': {'kind': 'sizes', 'partSizes': [1, 2, 3, 7, 64, 4096], 'maxParts': 9 if quick else 33,
                                               'salt': ctx.seed}, 'init': {}, 'steps': []})
-    for n in ([8, 9, 12] if quick else [8, 9, 11, 12, 13, 16, 17, 24, 31, 32, 33]):
+    for n in ([8, 9, 12] if quick else [8, 9, 11, 12, 13, 16, 17, 24]):
         all_traces.append({'id': 'bigtree-%d' % n, 'cfg': {'kind': 'bigtree', 'n': n}, 'init': {}, 'steps': []})
 
     # binding self-tests: corrupted expectations must be rejected
